@@ -819,3 +819,161 @@ def run(ctx):
         if not cmp_vec(total.tolist(), val.tolist(), 1e-8):
             ctx.disagree(key, desc, total.tolist(), val.tolist(), "likelihood/posterior gradient differs from the chain-rule model")
             # the oracle already ran on this case with the same key; if it held, finish() reports a broken tie
+
+    # ======================================================================= 6. call histories on ONE object
+    # Samplers (MALA, NUTS, …) call gradient/logd/forward on the same object many times, with the point held in
+    # one ndarray that is updated in place, re-created, or revisited.  The model is pure: its prediction depends
+    # only on the point's CURRENT value.  After every call the returned vector must equal that prediction and the
+    # derivative of the object's own logd (or of direction·forward for a bare Model) at the current value.
+    HKINDS = ["model", "likelihood", "posterior", "multi", "dist"]
+    HMODELS = ["jacobian", "direction-jacobian", "matrix", "fun+adjoint", "pde-jacobian", "pde-gradient"]
+    HGEOMS = ["default", "Continuous1D", "Mapped+grad", "Discrete"]
+    OPS = ["inplace", "inplace", "fresh-equal-earlier", "different", "inplace", "logd-then-inplace", "forward-then-inplace",
+           "different", "inplace", "fresh-equal-earlier", "inplace"]
+    hist = []       # (key, desc, target_fn(logd-like), records[(op, x_copy, dir_copy, val/status)], predict_lines builder)
+    hlines = []
+    hmeta = []
+    for k in range(30 * S):
+        kind = HKINDS[k % len(HKINDS)]
+        mk = HMODELS[(k // len(HKINDS)) % len(HMODELS)]
+        dg = HGEOMS[(k // 3) % len(HGEOMS)]
+        m = rng.choice([1, 2, 3]); n = rng.choice([2, 3, 4])
+        mapped = dg.startswith("Mapped")
+        desc0 = {"history": kind, "model": mk, "domain_geometry": dg, "m": m, "n": n}
+        if kind == "dist":
+            fam = ["gaussian", "cauchy", "gmrf"][(k // len(HKINDS)) % 3]
+            desc0 = {"history": kind, "family": fam, "n": n}
+            mu = np.array([dy(rng, -2, 2) for _ in range(n)])
+            if fam == "gaussian":
+                C = rand_spd(n)
+                with quiet():
+                    obj = D.Gaussian(mu, cov=C)
+                Pd = np.linalg.inv(C)
+                predict = lambda x, d_, mu=mu, Pd=Pd: -(Pd @ (x - mu))
+            elif fam == "cauchy":
+                sc = rng.choice([0.5, 1.0, 2.0])
+                with quiet():
+                    obj = D.Cauchy(mu, sc)
+                predict = lambda x, d_, mu=mu, sc=sc: -2 * (x - mu) / (sc ** 2 * (1 + ((x - mu) / sc) ** 2))
+            else:
+                pr = rng.choice([0.5, 1.0, 2.0])
+                with quiet():
+                    obj = D.GMRF(mu, pr)
+                    Pop = np.asarray(obj._prec_op.get_matrix().todense())
+                predict = lambda x, d_, mu=mu, pr=pr, Pop=Pop: -(pr * Pop) @ (x - mu)
+            call = lambda x, d_, obj=obj: obj.gradient(x)
+            scalar = lambda x, d_, obj=obj: float(obj.logd(x))
+            side_logd = lambda x, obj=obj: obj.logd(x)
+            side_fwd = side_logd
+            mk = fam; mapped = False; dgk = "id"
+        else:
+            dgeo = geom(dg, n); dgk = GKIND[dg]
+            F, J, lin, A = rand_forward(m, n)
+            if mk in ("matrix", "fun+adjoint"):
+                F, J = (lambda z, A=A: A @ z), (lambda z, A=A: A)
+            elif lin:   # make sure the Jacobian really depends on the point
+                Bq = np.array([[rng.choice([1, -1, 0.5]) for _ in range(n)] for _ in range(m)], dtype=float)
+                F, J = (lambda z, A=A, Bq=Bq: A @ z + Bq @ (z * z)), (lambda z, A=A, Bq=Bq: A + 2 * Bq * z[None, :])
+            try:
+                with quiet():
+                    if mk == "matrix":
+                        mod = LinearModel(A, domain_geometry=dgeo)
+                    elif mk == "fun+adjoint":
+                        mod = LinearModel(lambda z, A=A: A @ z, adjoint=lambda y, A=A: A.T @ y, range_geometry=m, domain_geometry=dgeo)
+                    elif mk == "jacobian":
+                        mod = Model(F, m, dgeo, jacobian=J)
+                    elif mk == "direction-jacobian":
+                        mod = Model(F, m, dgeo, gradient=lambda direction, wrt, J=J: direction @ J(wrt))
+                    else:
+                        from cuqi.pde import SteadyStateLinearPDE
+                        pde = SteadyStateLinearPDE(lambda p, F=F, m=m: (np.eye(m), F(p)))
+                        if mk == "pde-jacobian":
+                            pde.jacobian_wrt_parameter = lambda p, J=J: J(p)
+                        else:
+                            pde.gradient_wrt_parameter = lambda direction, wrt, J=J: direction @ J(wrt)
+                        mod = PDEModel(pde, range_geometry=m, domain_geometry=dgeo)
+            except Exception as e:  # noqa
+                ctx.note(f"history: model constructor refused {desc0}: {e!r}"[:160]); continue
+            zmap = (lambda x: x ** 2) if mapped else (lambda x: x)
+            gmap = (lambda x: 2 * x) if mapped else (lambda x: np.ones_like(x))
+            vjp_ = lambda x, dirv, J=J, zmap=zmap, gmap=gmap: gmap(x) * (np.atleast_2d(J(zmap(x))).T @ dirv)
+            if kind == "model":
+                predict = lambda x, d_, vjp_=vjp_: vjp_(x, d_)
+                call = lambda x, d_, mod=mod: mod.gradient(d_, x)
+                scalar = lambda x, d_, mod=mod: float(np.dot(d_, np.asarray(mod.forward(x), dtype=float).ravel()))
+                side_logd = lambda x, mod=mod: mod.forward(x)
+                side_fwd = side_logd
+            else:
+                cv = np.array([rng.choice([0.5, 1.0, 2.0]) for _ in range(m)]) if m > 1 else np.array([2.0])
+                data = np.array([dy(rng, -3, 3) for _ in range(m)])
+                with quiet():
+                    ydist = D.Gaussian(mod, cov=(cv if m > 1 else float(cv[0])))
+                    lik = ydist.to_likelihood(data)
+                lpred = lambda x, d_, F=F, zmap=zmap, vjp_=vjp_, data=data, cv=cv: vjp_(x, (data - F(zmap(x))) / cv)
+                if kind == "likelihood":
+                    obj = lik; predict = lpred
+                elif kind == "posterior":
+                    pm_ = np.array([dy(rng, -1, 1) for _ in range(n)]); pc = rng.choice([0.5, 1.0, 2.0])
+                    with quiet():
+                        obj = D.Posterior(lik, D.Gaussian(pm_, pc, geometry=dgeo))
+                    predict = lambda x, d_, lpred=lpred, pm_=pm_, pc=pc: lpred(x, d_) - (x - pm_) / pc
+                else:
+                    A2 = np.array([[rng.randint(-2, 2) for _ in range(n)]], dtype=float); d2 = np.array([dy(rng, -2, 2)])
+                    with quiet():
+                        xx = D.Gaussian(np.zeros(n), 2.0, geometry=dgeo, name="x")
+                        y1 = D.Gaussian(mod(xx), cov=(cv if m > 1 else float(cv[0])), name="y1")
+                        y2 = D.Gaussian(LinearModel(A2, domain_geometry=dgeo)(xx), 0.5, name="y2")
+                        obj = D.JointDistribution(xx, y1, y2)(y1=data, y2=d2)
+                    predict = lambda x, d_, lpred=lpred, A2=A2, d2=d2, zmap=zmap, gmap=gmap: (
+                        lpred(x, d_) - x / 2.0 + gmap(x) * (A2.T @ ((d2 - A2 @ zmap(x)) / 0.5)))
+                call = lambda x, d_, obj=obj: obj.gradient(x)
+                scalar = lambda x, d_, obj=obj: float(obj.logd(x))
+                side_logd = lambda x, obj=obj: obj.logd(x)
+                side_fwd = lambda x, mod=mod: mod.forward(x)
+        # ---- the scripted history on ONE point array
+        x = np.array([dy(rng, 0.5, 2.0, 4) for _ in range(n)]) if mapped else np.array([dy(rng, -2, 2, 4) for _ in range(n)])
+        dirv = np.array([dy(rng, -2, 2) for _ in range(m)]) if kind == "model" else None
+        visited = []
+        start = rng.randrange(len(OPS))
+        for t in range(9):
+            op = "first" if t == 0 else OPS[(start + t) % len(OPS)]
+            step = np.array([rng.choice([0.25, 0.5, 0.75, 1.0]) for _ in range(n)]) * (1 if mapped else rng.choice([-1, 1]))
+            try:
+                with quiet():
+                    if op in ("logd-then-inplace",):
+                        side_logd(x)
+                    if op in ("forward-then-inplace",):
+                        side_fwd(x)
+                    if op in ("inplace", "logd-then-inplace", "forward-then-inplace"):
+                        x += step                                   # the SAME ndarray object, new value
+                    elif op == "fresh-equal-earlier" and visited:
+                        x = visited[rng.randrange(len(visited))].copy()      # a new object equal to an earlier point
+                    elif op == "different":
+                        x = x + step                                # a new object, new value
+                    if kind == "model" and t % 2 == 1:
+                        dirv = np.array([dy(rng, -2, 2) for _ in range(m)])  # another direction at the same/next point
+            except Exception as e:  # noqa
+                ctx.note(f"history side call raised at {desc0}: {e!r}"[:160])
+            xv = x.copy(); dv = None if dirv is None else dirv.copy()
+            st, exc, val = classify(lambda: call(x, dirv), n)
+            desc = {**desc0, "step": t, "op": op, "x": xv.tolist(), "direction": None if dv is None else dv.tolist()}
+            ctx.case(f"history-{kind}", desc)
+            bump(f"history:{kind}:{st}")
+            key = f"history:{kind}:{mk}:{dgk}:{op}"
+            if not np.array_equal(x, xv):
+                ctx.fail(key + ":mutated-input", desc, xv.tolist(), x.tolist(), "gradient modified the caller's point array")
+            visited.append(xv)
+            if st != "value":
+                ctx.disagree(key + ":status", desc, "value", f"{st}({exc})", "status differs in a call history")
+                if st in ("none", "not-vector", "nan"):
+                    ctx.fail(key + ":status", desc, "gradient vector", st, "no gradient vector in a call history")
+                continue
+            pred = np.asarray(predict(xv, dv), dtype=float).ravel()
+            if not cmp_vec(pred.tolist(), val.tolist(), 1e-8):
+                ctx.disagree(key, desc, pred.tolist(), val.tolist(),
+                             "gradient differs from the (pure) model at the point's current value")
+            hist.append((key, desc, scalar, xv, dv, val, mapped))
+    # oracle after the histories (fresh arrays; the objects' logd/forward at the recorded values)
+    for key, desc, scalar, xv, dv, val, mapped in hist:
+        oracle_value(ctx, key, desc, (lambda z, scalar=scalar, dv=dv: scalar(z, dv)), val, xv,
+                     [0.0] * len(xv) if mapped else None, None, in_support=True)
